@@ -1,0 +1,132 @@
+//! Verification hooks (only compiled with the `verif-hooks` cargo feature).
+//!
+//! This module lets an external test harness observe every *mutating* file operation nomt
+//! performs (page writes through the I/O pool, direct positioned/appending writes, resizes,
+//! fsyncs, file creations and unlinks), make any of them fail with an OS error, perturb thread
+//! schedules at a few lock acquisitions, and shrink the rollback segment size.
+//!
+//! With the feature disabled none of this is compiled and no call site exists.
+
+use std::{
+    os::fd::RawFd,
+    path::Path,
+    sync::{
+        atomic::{AtomicU64, Ordering},
+        Arc, RwLock,
+    },
+};
+
+/// A mutating file operation, reported *before* it is issued.
+#[derive(Debug)]
+pub enum IoOp<'a> {
+    /// A positioned write of `data` at byte `offset`.
+    Write {
+        /// The file descriptor written to.
+        fd: RawFd,
+        /// Byte offset of the write.
+        offset: u64,
+        /// The bytes written.
+        data: &'a [u8],
+    },
+    /// A write at the current end of a file opened in append mode.
+    Append {
+        /// The file descriptor written to.
+        fd: RawFd,
+        /// The bytes appended.
+        data: &'a [u8],
+    },
+    /// A resize (ftruncate) to `len` bytes.
+    SetLen {
+        /// The file descriptor resized.
+        fd: RawFd,
+        /// The new length.
+        len: u64,
+    },
+    /// fsync / fdatasync of a file or directory.
+    Fsync {
+        /// The file descriptor synced.
+        fd: RawFd,
+    },
+    /// Creation of a new file.
+    Create {
+        /// Path of the created file.
+        path: &'a Path,
+    },
+    /// Removal of a file.
+    Unlink {
+        /// Path of the removed file.
+        path: &'a Path,
+    },
+}
+
+/// The interface a harness implements.
+pub trait Hook: Send + Sync {
+    /// Called before the operation is issued. Returning `Err` makes the operation fail with that
+    /// error without being performed. `Ok(token)` is passed back to [`Hook::after`].
+    fn before(&self, op: &IoOp<'_>) -> std::io::Result<u64>;
+    /// Called after the operation has completed (for pool writes: when the completion was reaped).
+    fn after(&self, token: u64, ok: bool);
+    /// Called at schedule perturbation points.
+    fn yield_point(&self, _site: u32) {}
+}
+
+static HOOK: RwLock<Option<Arc<dyn Hook>>> = RwLock::new(None);
+static SEGMENT_SIZE_OVERRIDE: AtomicU64 = AtomicU64::new(0);
+
+/// Install (or remove) the process-global hook.
+pub fn set_hook(hook: Option<Arc<dyn Hook>>) {
+    *HOOK.write().unwrap() = hook;
+}
+
+fn get() -> Option<Arc<dyn Hook>> {
+    HOOK.read().unwrap().clone()
+}
+
+/// Token meaning "no hook installed / nothing to report".
+pub const NO_TOKEN: u64 = u64::MAX;
+
+/// Report an operation about to be issued.
+pub fn before(op: IoOp<'_>) -> std::io::Result<u64> {
+    match get() {
+        None => Ok(NO_TOKEN),
+        Some(h) => h.before(&op),
+    }
+}
+
+/// Report the completion of an operation.
+pub fn after(token: u64, ok: bool) {
+    if token == NO_TOKEN {
+        return;
+    }
+    if let Some(h) = get() {
+        h.after(token, ok);
+    }
+}
+
+/// Run `f` (one mutating operation) bracketed by `before` / `after`.
+pub fn wrap<T>(op: IoOp<'_>, f: impl FnOnce() -> std::io::Result<T>) -> std::io::Result<T> {
+    let token = before(op)?;
+    let res = f();
+    after(token, res.is_ok());
+    res
+}
+
+/// A schedule perturbation point.
+pub fn yield_point(site: u32) {
+    if let Some(h) = get() {
+        h.yield_point(site);
+    }
+}
+
+/// Override the maximum rollback segment size (0 = no override).
+pub fn set_rollback_segment_size(bytes: u64) {
+    SEGMENT_SIZE_OVERRIDE.store(bytes, Ordering::Relaxed);
+}
+
+/// The rollback segment size override, if any.
+pub fn rollback_segment_size() -> Option<u64> {
+    match SEGMENT_SIZE_OVERRIDE.load(Ordering::Relaxed) {
+        0 => None,
+        n => Some(n),
+    }
+}
